@@ -7,13 +7,15 @@ import Mdsort.Proofs.ConfRT3
 namespace Mdsort.Proofs.Conf
 open Mdsort Mdsort.Model Mdsort.Spec
 
+variable {tl : Bytes} {NoErr : Nat → ParseSt → Prop}
+
 theorem toks_block_cons (rx : Pat → Bool) (t : CTree) (h : wfK rx .block t = true) :
     toks .block t = .lbrace :: (toks .block t).drop 1 := by
   cases t <;> simp_all [wfK, toks]
 
 /-- The first token of an action list is a keyword other than `and` / `or`, not `{`. -/
 theorem toks_acts_head (rx : Pat → Bool) : ∀ t, wfK rx .acts t = true → treePOK t = true →
-    ∃ k tl, toks .acts t = .kw k :: tl ∧ stopBin (.kw k) = true := by
+    ∃ k tks, toks .acts t = .kw k :: tks ∧ stopBin (.kw k) = true := by
   intro t
   induction t with
   | leaf e =>
@@ -26,12 +28,12 @@ theorem toks_acts_head (rx : Pat → Bool) : ∀ t, wfK rx .acts t = true → tr
     intro hw hp
     simp only [wfK, Bool.and_eq_true] at hw
     rw [treePOK_and, Bool.and_eq_true] at hp
-    obtain ⟨k, tl, hk, hs⟩ := ihx hw.1 hp.1
-    exact ⟨k, tl ++ toks .act y, by simp [toks, hk], hs⟩
+    obtain ⟨k, tks, hk, hs⟩ := ihx hw.1 hp.1
+    exact ⟨k, tks ++ toks .act y, by simp [toks, hk], hs⟩
   | _ => intro hw; simp [wfK] at hw
 
 theorem toks_rule_head (rx : Pat → Bool) (t : CTree) (h : wfK rx .rule t = true) :
-    ∃ tl, toks .rule t = .kw .mtch :: tl := by
+    ∃ tks, toks .rule t = .kw .mtch :: tks := by
   cases t <;> simp_all [wfK, toks]
 
 theorem isBlock_of_wf_block (rx : Pat → Bool) (t : CTree) (h : wfK rx .block t = true) : isBlock t = true := by
@@ -41,80 +43,80 @@ theorem not_isBlock_of_wf_acts (rx : Pat → Bool) (t : CTree) (h : wfK rx .acts
   cases t <;> simp_all [wfK, isBlock]
 
 /-- The body of a rule: shared by the kinds `rule` and `rules`. -/
-theorem rule_goal (cx : PCtx) (hnl : cx.nl = 0) (l : Nat) (c r : CTree)
+theorem rule_goal (cx : PCtx) (hnl : cx.nl = countNl tl) (l : Nat) (c r : CTree)
     (hc : wfK cx.rxOk .cond c = true) (hpc : treePOK c = true) (hpr : treePOK r = true)
-    (hr : (wfK cx.rxOk .block r = true ∧ r.countActions > 0 ∧ Goal cx .block r) ∨
-          (wfK cx.rxOk .acts r = true ∧ aloneOK r = true ∧ Goal cx .acts r))
+    (hr : (wfK cx.rxOk .block r = true ∧ r.countActions > 0 ∧ Goal cx tl NoErr .block r) ∨
+          (wfK cx.rxOk .acts r = true ∧ aloneOK r = true ∧ Goal cx tl NoErr .acts r))
     (acc : Option CTree) (t0 : PTok) (ts : List PTok) (Q : CTree → ParseSt → Prop) (ht0 : stopAct t0 = true)
-    (hQ : ∀ fuel' s', Up s' (t0 :: ts) → wp (parseExprs cx fuel' (some (joinR acc (relabel (.mtch l c r))))) Q NoErr True s')
+    (hQ : ∀ fuel' s', Up cx tl s' (t0 :: ts) → wpl (parseExprs cx fuel' (some (joinR acc (relabel (.mtch l c r))))) Q NoErr True s')
     (fuel : Nat) (s : ParseSt)
-    (hs : Up s (.kw .mtch :: (toks .cond c ++ (if isBlock r then toks .block r else toks .acts r)) ++ t0 :: ts)) :
-    wp (parseExprs cx fuel acc) Q NoErr True s := by
+    (hs : Up cx tl s (.kw .mtch :: (toks .cond c ++ (if isBlock r then toks .block r else toks .acts r)) ++ t0 :: ts)) :
+    wpl (parseExprs cx fuel acc) Q NoErr True s := by
   cases fuel with
-  | zero => simp [parseExprs, wp, outOfFuel]
+  | zero => simp [parseExprs, wpl, outOfFuel]
   | succ fuel =>
     unfold parseExprs
-    simp only [wp_bind]
+    simp only [wpl_bind]
     simp only [List.cons_append, List.append_assoc] at hs
-    apply wp_peek_up cx _ _ hs rfl
+    apply wpl_peek_up cx _ _ hs rfl
     intro s1 h1
-    simp only [tkOf, wp_bind]
-    apply wp_shift_up h1
+    simp only [tkOf, wpl_bind]
+    apply wpl_shift_up h1
     intro s2 h2
     -- the rule
-    have hrule : wp (parseRuleWith cx fuel (parseExprs cx fuel none) (parseActions cx fuel none))
-        (fun a s' => a = relabel (.mtch l c r) ∧ Up s' (t0 :: ts)) NoErr True s2 := by
+    have hrule : wpl (parseRuleWith cx fuel (parseExprs cx fuel none) (parseActions cx fuel none))
+        (fun a s' => a = relabel (.mtch l c r) ∧ Up cx tl s' (t0 :: ts)) NoErr True s2 := by
       unfold parseRuleWith
-      simp only [wp_bind]
-      refine wp_of_rt (cond_rt cx hnl c hc hpc fuel) h2 ?_
+      simp only [wpl_bind]
+      refine wpl_of_rt (cond_rt cx hnl c hc hpc fuel) h2 ?_
       intro s3 h3
       rcases hr with ⟨hwb, hcount, hgoal⟩ | ⟨hwa, halone, hgoal⟩
       · -- a nested block
         have hib := isBlock_of_wf_block _ _ hwb
         rw [hib, if_pos rfl, toks_block_cons _ _ hwb] at h3
         simp only [List.cons_append] at h3
-        have hstop := binTail_stop cx fuel (relabel c) s3 .lbrace _ h3 rfl
-        refine wp_mono hstop ?_ (fun _ h => h)
+        have hstop := binTail_stop (NoErr := NoErr) cx fuel (relabel c) s3 .lbrace _ h3 rfl
+        refine wpl_mono hstop ?_ (fun _ _ h => h)
         rintro _ s4 ⟨rfl, h4⟩
-        apply wp_peek_up cx _ _ h4 rfl
+        apply wpl_peek_up cx _ _ h4 rfl
         intro s5 h5
-        simp only [tkOf, wp_bind]
-        apply wp_shift_up h5
+        simp only [tkOf, wpl_bind]
+        apply wpl_shift_up h5
         intro s6 h6
-        refine wp_of_rt (hgoal fuel) h6 ?_
+        refine wpl_of_rt (hgoal fuel) h6 ?_
         intro s7 h7
         have hne : ((relabel r).countActions == 0) = false := by
           rw [countActions_relabel]; simp only [beq_eq_false_iff_ne]; omega
-        simp only [hne, wp_ite, Bool.false_eq_true, if_false, wp_bind]
-        apply wp_curLine_up cx hnl h7
-        simp only [wp_pure]
+        simp only [hne, wpl_ite, Bool.false_eq_true, if_false, wpl_bind]
+        apply wpl_curLine_up cx hnl h7
+        simp only [wpl_pure]
         exact ⟨rfl, h7⟩
       · -- a list of actions
         have hib := not_isBlock_of_wf_acts _ _ hwa
         rw [hib] at h3
         simp only [Bool.false_eq_true, if_false] at h3
-        obtain ⟨k, tl, hk, hsb⟩ := toks_acts_head _ r hwa hpr
-        have h3' : Up s3 (.kw k :: (tl ++ t0 :: ts)) := by rw [hk] at h3; simpa using h3
-        have hstop := binTail_stop cx fuel (relabel c) s3 (.kw k) _ h3' hsb
-        refine wp_mono hstop ?_ (fun _ h => h)
+        obtain ⟨k, tks, hk, hsb⟩ := toks_acts_head _ r hwa hpr
+        have h3' : Up cx tl s3 (.kw k :: (tks ++ t0 :: ts)) := by rw [hk] at h3; simpa using h3
+        have hstop := binTail_stop (NoErr := NoErr) cx fuel (relabel c) s3 (.kw k) _ h3' hsb
+        refine wpl_mono hstop ?_ (fun _ _ h => h)
         rintro _ s4 ⟨rfl, h4⟩
         have hm : modeOK false false (.kw k) = true := rfl
-        apply wp_peek_up cx _ _ h4 hm
+        apply wpl_peek_up cx _ _ h4 hm
         intro s5 h5
         have hok5 := h4.ok (.kw k) (by simp)
-        have h5' : Up s5 (toks .acts r ++ t0 :: ts) := by
+        have h5' : Up cx tl s5 (toks .acts r ++ t0 :: ts) := by
           have := h5.up_some hok5
           rw [hk]; simpa using this
-        simp only [tkOf, wp_bind]
+        simp only [tkOf, wpl_bind]
         -- all the actions, then the end of the list
         refine hgoal none (t0 :: ts) _ ?_ fuel s5 h5'
         intro fuel' s6 h6
-        have hst := acts_stop cx fuel' (some (joinAs none r)) s6 t0 ts h6 ht0
-        refine wp_mono hst ?_ (fun _ h => h)
+        have hst := acts_stop (NoErr := NoErr) cx fuel' (some (joinAs none r)) s6 t0 ts h6 ht0
+        refine wpl_mono hst ?_ (fun _ _ h => h)
         rintro _ s7 ⟨rfl, h7⟩
         rw [joinAs_none _ r hwa]
-        simp only [wp_bind]
-        have hval : wp (validateActions (relabel r)) (fun _ s' => s' = s7) NoErr True s7 := by
+        simp only [wpl_bind]
+        have hval : wpl (validateActions (relabel r)) (fun _ s' => s' = s7) NoErr True s7 := by
           unfold validateActions
           have hd := countLeaf_relabel Expr.isDiscard isDiscard_withLno r
           have hj := countLeaf_relabel Expr.isReject isReject_withLno r
@@ -124,100 +126,100 @@ theorem rule_goal (cx : PCtx) (hnl : cx.nl = 0) (l : Nat) (c r : CTree)
             rcases halone with h | ⟨h1, h2⟩
             · simp; omega
             · simp [h1, h2]
-          simp only [this, Bool.false_eq_true, if_false, wp_pure]
-        refine wp_mono hval ?_ (fun _ h => h)
+          simp only [this, Bool.false_eq_true, if_false, wpl_pure]
+        refine wpl_mono hval ?_ (fun _ _ h => h)
         rintro _ s8 rfl
-        apply wp_curLine_up cx hnl h7
-        simp only [wp_pure]
+        apply wpl_curLine_up cx hnl h7
+        simp only [wpl_pure]
         exact ⟨rfl, h7⟩
-    refine wp_mono hrule ?_ (fun _ h => h)
+    refine wpl_mono hrule ?_ (fun _ _ h => h)
     rintro _ s9 ⟨rfl, h9⟩
-    apply wp_curLine_up cx hnl h9
+    apply wpl_curLine_up cx hnl h9
     have := hQ fuel s9 h9
     cases acc <;> exact this
 
 /-- Every well-formed, writable tree is read back - by the parser function for its kind. -/
-theorem all_rt (cx : PCtx) (hnl : cx.nl = 0) : ∀ (t : CTree) (k : Kind), wfK cx.rxOk k t = true → treePOK t = true →
-    Goal cx k t := by
+theorem all_rt (cx : PCtx) (hnl : cx.nl = countNl tl) : ∀ (t : CTree) (k : Kind), wfK cx.rxOk k t = true → treePOK t = true →
+    ∀ (NoErr : Nat → ParseSt → Prop), Goal cx tl NoErr k t := by
   intro t
   induction t with
   | leaf e =>
-    intro k hw hp
+    intro k hw hp NoErr
     rw [treePOK_leaf] at hp
     cases k <;> simp only [wfK, Bool.false_eq_true, Bool.and_eq_true] at hw
     · trivial
-    · exact act_leaf_goal cx hnl e hw.1 hw.2 hp
+    · exact act_leaf_goal (NoErr := NoErr) cx hnl e hw.1 hw.2 hp
     · -- acts: a single action
-      have := act_leaf_goal cx hnl e hw.1 hw.2 hp
+      have := act_leaf_goal (NoErr := NoErr) cx hnl e hw.1 hw.2 hp
       intro acc ts Q hQ fuel s hs
       exact this acc ts Q hQ fuel s hs
   | emptyBlock l =>
-    intro k hw _
+    intro k hw _ NoErr
     cases k <;> simp only [wfK, Bool.false_eq_true] at hw
     · -- block
       intro fuel s ts hs
       simp only [toks, List.drop_succ_cons, List.drop_zero, List.cons_append, List.nil_append] at hs
       cases fuel with
-      | zero => simp [parseExprs, wp, outOfFuel]
+      | zero => simp [parseExprs, wpl, outOfFuel]
       | succ fuel =>
         unfold parseExprs
-        simp only [wp_bind]
-        apply wp_peek_up cx _ _ hs rfl
+        simp only [wpl_bind]
+        apply wpl_peek_up cx _ _ hs rfl
         intro s1 h1
-        simp only [tkOf, wp_bind]
-        apply wp_shift_up h1
+        simp only [tkOf, wpl_bind]
+        apply wpl_shift_up h1
         intro s2 h2
-        apply wp_curLine_up cx hnl h2
-        simp only [wp_pure]
+        apply wpl_curLine_up cx hnl h2
+        simp only [wpl_pure]
         exact ⟨rfl, h2⟩
   | block l b ih =>
-    intro k hw hp
+    intro k hw hp NoErr
     rw [treePOK_block] at hp
     cases k <;> simp only [wfK, Bool.false_eq_true] at hw
     · intro fuel s ts hs
-      have hg := ih .rules hw hp
+      have hg := ih .rules hw hp NoE
       simp only [toks, List.cons_append, List.drop_succ_cons, List.drop_zero, List.nil_append, List.append_assoc] at hs
       refine hg none .rbrace ts _ rfl ?_ fuel s hs
       intro fuel' s1 h1
       rw [joinRs_none _ b hw]
       cases fuel' with
-      | zero => simp [parseExprs, wp, outOfFuel]
+      | zero => simp [parseExprs, wpl, outOfFuel]
       | succ fuel' =>
         unfold parseExprs
-        simp only [wp_bind]
-        apply wp_peek_up cx _ _ h1 rfl
+        simp only [wpl_bind]
+        apply wpl_peek_up cx _ _ h1 rfl
         intro s2 h2
-        simp only [tkOf, wp_bind]
-        apply wp_shift_up h2
+        simp only [tkOf, wpl_bind]
+        apply wpl_shift_up h2
         intro s3 h3
-        apply wp_curLine_up cx hnl h3
-        simp only [wp_pure]
+        apply wpl_curLine_up cx hnl h3
+        simp only [wpl_pure]
         exact ⟨rfl, h3⟩
-  | neg l e _ => intro k hw _; cases k <;> simp only [wfK, Bool.false_eq_true] at hw; trivial
-  | attachment l e _ => intro k hw _; cases k <;> simp only [wfK, Bool.false_eq_true] at hw; trivial
+  | neg l e _ => intro k hw _ NoErr; cases k <;> simp only [wfK, Bool.false_eq_true] at hw; trivial
+  | attachment l e _ => intro k hw _ NoErr; cases k <;> simp only [wfK, Bool.false_eq_true] at hw; trivial
   | attBlock l b ih =>
-    intro k hw hp
+    intro k hw hp NoErr
     rw [treePOK_attBlock] at hp
     have key : wfK cx.rxOk .block b = true → 0 < b.countActions → b.countActions ≤ b.countLeaf Expr.isExec →
-        Goal cx .act (.attBlock l b) := by
+        Goal cx tl NoErr .act (.attBlock l b) := by
       intro hwb hpos0 hle acc ts Q hQ fuel s hs
-      have hg := ih .block hwb hp
+      have hg := ih .block hwb hp NoErr
       cases fuel with
-      | zero => simp [parseActions, wp, outOfFuel]
+      | zero => simp [parseActions, wpl, outOfFuel]
       | succ fuel =>
         unfold parseActions
-        simp only [wp_bind]
+        simp only [wpl_bind]
         simp only [toks, List.cons_append] at hs
-        apply wp_peek_up cx _ _ hs rfl
+        apply wpl_peek_up cx _ _ hs rfl
         intro s1 h1
-        simp only [tkOf, parseActionWith, wp_bind]
-        apply wp_shift_up h1
+        simp only [tkOf, parseActionWith, wpl_bind]
+        apply wpl_shift_up h1
         intro s2 h2
         rw [toks_block_cons _ _ hwb] at h2
         simp only [List.cons_append] at h2
-        refine wp_of_rt (expectTk_rt cx .lbrace rfl) h2 ?_
+        refine wpl_of_rt (expectTk_rt cx .lbrace rfl) h2 ?_
         intro s3 h3
-        refine wp_of_rt (hg fuel) h3 ?_
+        refine wpl_of_rt (hg fuel) h3 ?_
         intro s4 h4
         have hcnt : ¬ ((relabel b).countActions > (relabel b).countLeaf Expr.isExec) := by
           rw [countActions_relabel, countLeaf_relabel Expr.isExec isExec_withLno]
@@ -226,58 +228,58 @@ theorem all_rt (cx : PCtx) (hnl : cx.nl = 0) : ∀ (t : CTree) (k : Kind), wfK c
           rw [countActions_relabel]
           simp only [beq_iff_eq]
           omega
-        simp only [wp_ite, wp_bind]
+        simp only [wpl_ite, wpl_bind]
         rw [if_neg hnz, if_neg hcnt]
-        apply wp_curLine_up cx hnl h4
-        simp only [wp_pure]
-        exact wp_andJoin cx hnl acc _ h4 (hQ fuel s4 h4)
+        apply wpl_curLine_up cx hnl h4
+        simp only [wpl_pure]
+        exact wpl_andJoin cx hnl acc _ h4 (hQ fuel s4 h4)
     cases k <;> simp only [wfK, Bool.false_eq_true, Bool.and_eq_true, decide_eq_true_eq] at hw
     · exact key hw.1.1 hw.1.2 hw.2
     · intro acc ts Q hQ fuel s hs
       exact key hw.1.1 hw.1.2 hw.2 acc ts Q hQ fuel s hs
   | and l x y ihx ihy =>
-    intro k hw hp
+    intro k hw hp NoErr
     rw [treePOK_and, Bool.and_eq_true] at hp
     cases k <;> simp only [wfK, Bool.false_eq_true, Bool.and_eq_true] at hw
     · trivial
     · -- acts
       intro acc ts Q hQ fuel s hs
-      have hgx := ihx .acts hw.1 hp.1
-      have hgy := ihy .act hw.2 hp.2
+      have hgx := ihx .acts hw.1 hp.1 NoErr
+      have hgy := ihy .act hw.2 hp.2 NoErr
       simp only [toks, List.append_assoc] at hs
       refine hgx acc (toks .act y ++ ts) Q ?_ fuel s hs
       intro fuel' s1 h1
       exact hgy (some (joinAs acc x)) ts Q hQ fuel' s1 h1
   | or l x y ihx ihy =>
-    intro k hw hp
+    intro k hw hp NoErr
     rw [treePOK_or, Bool.and_eq_true] at hp
     cases k <;> simp only [wfK, Bool.false_eq_true, Bool.and_eq_true] at hw
     · trivial
     · -- rules
       intro acc t0 ts Q ht0 hQ fuel s hs
-      have hgx := ihx .rules hw.1 hp.1
-      have hgy := ihy .rule hw.2 hp.2
-      obtain ⟨tl, htl⟩ := toks_rule_head _ y hw.2
+      have hgx := ihx .rules hw.1 hp.1 NoErr
+      have hgy := ihy .rule hw.2 hp.2 NoErr
+      obtain ⟨tks, htl⟩ := toks_rule_head _ y hw.2
       simp only [toks, List.append_assoc] at hs
-      have hs' : Up s (toks .rules x ++ .kw .mtch :: (tl ++ t0 :: ts)) := by rw [htl] at hs; simpa using hs
-      refine hgx acc (.kw .mtch) (tl ++ t0 :: ts) Q rfl ?_ fuel s hs'
+      have hs' : Up cx tl s (toks .rules x ++ .kw .mtch :: (tks ++ t0 :: ts)) := by rw [htl] at hs; simpa using hs
+      refine hgx acc (.kw .mtch) (tks ++ t0 :: ts) Q rfl ?_ fuel s hs'
       intro fuel' s1 h1
-      have h1' : Up s1 (toks .rule y ++ t0 :: ts) := by rw [htl]; simpa using h1
+      have h1' : Up cx tl s1 (toks .rule y ++ t0 :: ts) := by rw [htl]; simpa using h1
       exact hgy (some (joinRs acc x)) t0 ts Q ht0 hQ fuel' s1 h1'
   | mtch l c r ihc ihr =>
-    intro k hw hp
+    intro k hw hp NoErr
     rw [treePOK_mtch, Bool.and_eq_true] at hp
     have key : wfK cx.rxOk .cond c = true →
         ((wfK cx.rxOk .block r = true ∧ r.countActions > 0) ∨ (wfK cx.rxOk .acts r = true ∧ aloneOK r = true)) →
         ∀ (acc : Option CTree) (t0 : PTok) (ts : List PTok) (Q : CTree → ParseSt → Prop), stopAct t0 = true →
-        (∀ fuel' s', Up s' (t0 :: ts) → wp (parseExprs cx fuel' (some (joinR acc (relabel (.mtch l c r))))) Q NoErr True s') →
-        ∀ fuel s, Up s (.kw .mtch :: (toks .cond c ++ (if isBlock r then toks .block r else toks .acts r)) ++ t0 :: ts) →
-          wp (parseExprs cx fuel acc) Q NoErr True s := by
+        (∀ fuel' s', Up cx tl s' (t0 :: ts) → wpl (parseExprs cx fuel' (some (joinR acc (relabel (.mtch l c r))))) Q NoErr True s') →
+        ∀ fuel s, Up cx tl s (.kw .mtch :: (toks .cond c ++ (if isBlock r then toks .block r else toks .acts r)) ++ t0 :: ts) →
+          wpl (parseExprs cx fuel acc) Q NoErr True s := by
       intro hc hr acc t0 ts Q ht0 hQ fuel s hs
       refine rule_goal cx hnl l c r hc hp.1 hp.2 ?_ acc t0 ts Q ht0 hQ fuel s hs
       rcases hr with ⟨h1, h2⟩ | ⟨h1, h2⟩
-      · exact Or.inl ⟨h1, h2, ihr .block h1 hp.2⟩
-      · exact Or.inr ⟨h1, h2, ihr .acts h1 hp.2⟩
+      · exact Or.inl ⟨h1, h2, ihr .block h1 hp.2 NoErr⟩
+      · exact Or.inr ⟨h1, h2, ihr .acts h1 hp.2 NoErr⟩
     cases k <;> simp only [wfK, Bool.false_eq_true, Bool.and_eq_true, Bool.or_eq_true, decide_eq_true_eq] at hw
     · intro acc t0 ts Q ht0 hQ fuel s hs
       exact key hw.1 hw.2 acc t0 ts Q ht0 hQ fuel s (by simpa [toks] using hs)
